@@ -305,7 +305,15 @@ func (e *eng) varCase(r layRow, i int) {
 	if r.has(1) {
 		fmt.Fprintf(&y, "variables:\n  w: %s\n", yq(v(1)))
 	}
+	if i%2 == 1 {
+		// the task runs in a named context that has variables of its own: those are for the context's
+		// own commands and take no part in the precedence of the task's variables
+		y.WriteString("contexts:\n  cx:\n    variables:\n      w: vctx\n      Root: rctx\n")
+	}
 	y.WriteString("tasks:\n  t:\n")
+	if i%2 == 1 {
+		y.WriteString("    context: cx\n")
+	}
 	if r.has(3) {
 		fmt.Fprintf(&y, "    variables:\n      w: %s\n", yq(v(3)))
 	}
@@ -386,7 +394,9 @@ func (e *eng) undefinedAt(k int, allow bool) {
 	d := e.env.Sub("undef")
 	trace := filepath.Join(d, "trace")
 	var y strings.Builder
-	y.WriteString("tasks:\n  t:\n    variables:\n      dv: defined\n")
+	// (the context defines the name: it stays undefined for the task's commands)
+	y.WriteString("contexts:\n  cx:\n    variables:\n      nosuch: from-the-context\n")
+	y.WriteString("tasks:\n  t:\n    context: cx\n    variables:\n      dv: defined\n")
 	if allow {
 		y.WriteString("    allow_failure: true\n")
 	}
@@ -901,9 +911,14 @@ func (e *eng) stageBin(c stgCase, i int) {
 	// the task is bound to a named context (one shared object) whose before hook takes a moment, and
 	// has a variable whose value is itself a template over a variable that stages override
 	y.WriteString("contexts:\n  cx:\n    env:\n      CXE: c\n    before: [\"sleep 0.02\"]\n")
+	fmt.Fprintf(&y, "  cx2:\n    dir: \"%s/{{.cd}}\"\n", d)
 	fmt.Fprintf(&y, "tasks:\n  t:\n    context: cx\n    dir: %s\n    env:\n      V: v0\n      A: a0\n    variables:\n      w: w0\n      B: b0\n      G: \"g-{{.w}}\"\n", yq(filepath.Join(d, "d0")))
 	y.WriteString("    command:\n      - sleep 0.0$((RANDOM % 5))\n      - |\n        echo \"$V|$A|{{.w}}|{{.B}}|$(pwd)|{{.G}}|$P\" > \"$OUTDIR/{{with index . \".Stage.Name\"}}{{.}}{{else}}direct{{end}}\"\n")
-	y.WriteString("pipelines:\n  p:\n")
+	// a second task whose working directory comes from its context, as a template over a variable
+	// that stages override: every stage (and the direct run) gets its own rendering
+	fmt.Fprintf(&y, "  t2:\n    context: cx2\n    variables:\n      cd: d0\n    command:\n      - |\n        pwd > \"$OUTDIR/ctxdir-{{with index . \".Stage.Name\"}}{{.}}{{else}}direct{{end}}\"\n")
+	y.WriteString("pipelines:\n  r:\n    - name: r1\n      task: t2\n      variables:\n        cd: d1\n    - name: r2\n      task: t2\n      depends_on: [r1]\n      variables:\n        cd: d2\n")
+	y.WriteString("  p:\n")
 	for s := 1; s <= c.NS; s++ {
 		fmt.Fprintf(&y, "    - name: s%d\n      task: t\n", s)
 		if len(c.Deps[s-1]) > 0 {
@@ -934,7 +949,7 @@ func (e *eng) stageBin(c stgCase, i int) {
 	// the pipeline, then another pipeline and a direct run of the same task in the same process
 	outdir := filepath.Join(d, "out")
 	_ = os.MkdirAll(outdir, 0o755)
-	res := e.run(d, []string{"OUTDIR=" + outdir}, "--raw", "p", "q", "t")
+	res := e.run(d, []string{"OUTDIR=" + outdir}, "--raw", "p", "q", "t", "r", "t2")
 	detail := map[string]interface{}{"yaml": y.String(), "stdout": res.Stdout, "stderr": tailS(res.Stderr, 500), "exit": res.Exit}
 	add := func(kind, what string) {
 		e.rep.Add(core.Finding{Prop: "C08", Key: "C08:bin:" + kind, What: what + fmt.Sprintf(" [overrides per stage %v, deps %v]", c.Ov, c.Deps), Detail: detail})
@@ -950,6 +965,11 @@ func (e *eng) stageBin(c stgCase, i int) {
 		got[en.Name()] = strings.TrimSpace(string(b))
 	}
 	detail["observed"] = got
+	for name, dir := range map[string]string{"ctxdir-r1": "d1", "ctxdir-r2": "d2", "ctxdir-direct": "d0"} {
+		if want := filepath.Join(d, dir); got[name] != want {
+			add("context-dir-of-another-stage", fmt.Sprintf("%s ran in %q, model %q (the context's dir is a template over a variable the stages override)", name, got[name], want))
+		}
+	}
 	for s := -1; s <= c.NS; s++ {
 		name := fmt.Sprintf("s%d", s)
 		v, w, dir := "v0", "w0", "d0"
